@@ -110,8 +110,14 @@ pub fn run(tier: &str, seed: u64, replay: Option<String>) -> i32 {
     let t0 = Instant::now();
     let thorough = tier == "thorough";
     let scratch = Scratch::new("c02");
-    let files = corpus::load(&[FileKind::Ctehexml, FileKind::Cte]);
+    let mut files = corpus::load(&[FileKind::Ctehexml, FileKind::Cte]);
     let mut rng = Rng::new(rng::derive(seed, "C02", 0));
+    // projects printed by the generator: a few go through every fault below, many more are
+    // converted as they are (closure of the intact generated project)
+    let n_shipped = files.len();
+    let gen_base = rng.next_u64() % 1_000_000;
+    files.extend(corpus::generated((0..if thorough { 40 } else { 8 }).map(|k| gen_base + k)));
+    let gen_intact = corpus::generated((0..if thorough { 3000 } else { 250 }).map(|k| gen_base + 1000 + k));
 
     let mut jobs: Vec<DJob> = vec![];
     for f in &files {
@@ -121,6 +127,15 @@ pub fn run(tier: &str, seed: u64, replay: Option<String>) -> i32 {
                 edit: Edit::Intact,
                 cell: format!("{}|intact", f.kind.as_str()),
             }],
+            1,
+            false,
+            true,
+        ));
+    }
+    for f in &gen_intact {
+        jobs.extend(diskrun::jobs_for(
+            f,
+            vec![diskfault::Variant { edit: Edit::Intact, cell: "ctehexml|generated|intact".into() }],
             1,
             false,
             true,
@@ -417,6 +432,7 @@ pub fn run(tier: &str, seed: u64, replay: Option<String>) -> i32 {
     let mut distinct = 0u64;
     let mut evaluations = 0u64;
     let mut ok_models_after_fault = 0u64;
+    let mut gen_classes: BTreeMap<String, u64> = BTreeMap::new();
     let mut intact_report = vec![];
     let mut harness_errors = vec![];
     let mut samples = vec![];
@@ -451,7 +467,9 @@ pub fn run(tier: &str, seed: u64, replay: Option<String>) -> i32 {
                     ok_models_after_fault += 1;
                 }
             }
-            if i < n_intact {
+            if i < n_intact && j.file.starts_with("gen/") {
+                *gen_classes.entry(cls.clone()).or_insert(0u64) += 1;
+            } else if i < n_intact {
                 intact_report.push(json!({"file": j.file, "class": cls, "broken": v["broken_n"], "check": v["check_n"]}));
             }
         }
@@ -517,6 +535,9 @@ pub fn run(tier: &str, seed: u64, replay: Option<String>) -> i32 {
     extra.insert("crashes_left_to_C19".into(), json!(crash_other));
     extra.insert("known_findings_hit".into(), json!(verdict.known_hit));
     extra.insert("intact_files".into(), json!(intact_report));
+    extra.insert("generated_projects_intact_outcomes".into(), json!(gen_classes));
+    extra.insert("generated_projects_under_every_fault".into(), json!(files.len() - n_shipped));
+    extra.insert("project_generator".into(), json!("sim/src/projgen.rs: the geometry, glazing library and shades of cubo.ctehexml replaced by a printed building (1-3 floors x 1-3 spaces, basements, party walls, unconditioned / uninhabited spaces, multipliers, 0-2 windows per wall with overhangs and equal or different side fins, 0-4 extra window constructions sharing glasses and frames, 0-2 building shades, rotated building); pure function of one integer"));
     extra.insert("seeds_per_hour".into(), json!((evaluations as f64 / wall.max(0.001) * 3600.0) as u64));
     extra.insert("simulated_time".into(), json!("n/a - no timers or deadlines in the system"));
     extra.insert("components".into(), report::components());
@@ -527,7 +548,7 @@ pub fn run(tier: &str, seed: u64, replay: Option<String>) -> i32 {
         level: "fault_enumeration".into(),
         evaluations,
         distinct_nontrivial: distinct,
-        rule: "for every shipped .ctehexml and legacy .cte file: every definition block of a referable type (MATERIAL, LAYERS, CONSTRUCTION, GLASS-TYPE, NAME-FRAME, GAP, POLYGON, FLOOR, SPACE, SPACE-/SYSTEM-CONDITIONS, DAY-/WEEK-/SCHEDULE-PD) renamed and removed, and every quoted name in a reference attribute renamed - one fault per case; thorough runs all, quick 40 per (file kind x block type x fault kind) cell. A returned model must be closed (ids unique per collection; every link resolves to exactly one element of the right collection and is not nil; check() empty) and must not have lost an optional link that the intact conversion of the same file had. Non-trivial = the faulted text differs, the touched name is referenced elsewhere (or is itself a reference), distinct by content hash".into(),
+        rule: "for every shipped .ctehexml and legacy .cte file and a seeded set of generated projects (plus many more generated projects converted intact): every definition block of a referable type (MATERIAL, LAYERS, CONSTRUCTION, GLASS-TYPE, NAME-FRAME, GAP, POLYGON, FLOOR, SPACE, SPACE-/SYSTEM-CONDITIONS, DAY-/WEEK-/SCHEDULE-PD) renamed and removed, and every quoted name in a reference attribute renamed - one fault per case; thorough runs all, quick 40 per (file kind x block type x fault kind) cell. A returned model must be closed (ids unique per collection; every link resolves to exactly one element of the right collection and is not nil; check() empty) and must not have lost an optional link that the intact conversion of the same file had. Non-trivial = the faulted text differs, the touched name is referenced elsewhere (or is itself a reference), distinct by content hash".into(),
         samples,
         exhaustive: thorough,
         extra,
